@@ -677,3 +677,108 @@ fn log_enum_quick() {
 fn log_enum_thorough() {
 	log_enum_impl(3, 1021, "log_enum_thorough");
 }
+
+// ------------------------------------------------------------------------------------------------
+// C12 bounded check of the REPLAY on top of the reader (src/wal/recovery.rs replay_wal): whatever the reader says
+// about a cut-off segment, the replay says too - a corruption report is never swallowed (in absolute-consistency
+// mode it must make the open fail, in the default mode it must trigger the repair), and a clean end-of-log replays
+// exactly the batches the reader yields.
+// Bound (stated): 1..3 commit batches (one key each, values of 1 / 40 / 300 bytes) in one segment, preceded by 0 or 1
+// older complete segment; the newest segment truncated at EVERY byte offset.
+#[test]
+fn replay_torn_enum() {
+	use crate::batch::Batch;
+	use crate::wal::manager::Wal;
+	use crate::wal::recovery::replay_wal;
+	use crate::InternalKeyKind;
+	let mut cases = 0u64;
+	let mut nontrivial = 0u64;
+	let mut failures: Vec<String> = Vec::new();
+	let mut samples: Vec<String> = Vec::new();
+	for older in 0..2usize {
+		for n in 1..=3usize {
+			for &vlen in &[1usize, 40, 300] {
+				let dir = tempdir::TempDir::new("verif_c12r").unwrap();
+				let mut seq = 1u64;
+				let mk = |i: usize, seq: u64| -> Vec<u8> {
+					let mut b = Batch::new(seq);
+					b.add_record(InternalKeyKind::Set, format!("key{i}").into_bytes(), Some(vec![b'a' + i as u8; vlen]), 0).unwrap();
+					b.encode().unwrap()
+				};
+				{
+					let mut wal = Wal::open(dir.path(), Options::default()).unwrap();
+					if older == 1 {
+						wal.append(&mk(9, seq)).unwrap();
+						seq += 1;
+						wal.rotate().unwrap();
+					}
+					for i in 0..n {
+						wal.append(&mk(i, seq)).unwrap();
+						seq += 1;
+					}
+					let _ = wal.sync();
+					let _ = wal.close();
+				}
+				let ids = list_segment_ids(dir.path(), Some("wal")).unwrap_or_default();
+				let newest = *ids.last().unwrap();
+				let seg = dir.path().join(segment_name(newest, "wal"));
+				let bytes = std::fs::read(&seg).unwrap();
+				for cut in 0..=bytes.len() {
+					cases += 1;
+					let work = dir.path().join("work");
+					let _ = std::fs::remove_dir_all(&work);
+					std::fs::create_dir_all(&work).unwrap();
+					for &id in &ids {
+						let src = dir.path().join(segment_name(id, "wal"));
+						let dst = work.join(segment_name(id, "wal"));
+						if id == newest {
+							std::fs::write(&dst, &bytes[..cut]).unwrap();
+						} else {
+							std::fs::copy(&src, &dst).unwrap();
+						}
+					}
+					let (got, end) = read_all(&work.join(segment_name(newest, "wal")));
+					let replay = replay_wal(&work, 0, 1 << 20);
+					let what = format!("{n} batch(es) with {vlen}-byte values, {older} older segment(s), newest segment cut at byte {cut} of {}", bytes.len());
+					let mut bad: Option<String> = None;
+					if end.starts_with("corruption") {
+						nontrivial += 1;
+						match &replay {
+							Err(crate::error::Error::WalCorruption { .. }) => {}
+							Err(e) => bad = Some(format!("the reader reports '{end}', the replay fails with another error: {e}")),
+							Ok((_, mts)) => bad = Some(format!("the reader reports '{end}' after {} record(s), but the replay reports a clean log ({} memtable(s)): the damage is neither repaired nor does it fail the open in absolute-consistency mode", got.len(), mts.len())),
+						}
+					} else if end == "eof" {
+						match &replay {
+							Err(e) => bad = Some(format!("the reader reads {} record(s) and a clean end-of-log, the replay fails: {e}", got.len())),
+							Ok((_, mts)) => {
+								for i in 0..n {
+									let present = mts.iter().any(|(m, _)| m.get(format!("key{i}").as_bytes(), None).is_some());
+									if present != (i < got.len()) {
+										bad = Some(format!("the reader reads {} record(s) and a clean end-of-log; after the replay key{i} is {}", got.len(), if present { "present" } else { "absent" }));
+										break;
+									}
+								}
+							}
+						}
+					} else {
+						bad = Some(format!("the reader ended with '{end}'"));
+					}
+					if let Some(b) = bad {
+						if failures.len() < 5 {
+							failures.push(format!("{{\"case\":{:?},\"mismatch\":{:?}}}", what, b));
+						}
+					} else if samples.len() < 2 && end.starts_with("corruption") && cut < 7 {
+						samples.push(format!("{:?}", what));
+					}
+				}
+			}
+		}
+	}
+	println!(
+		"REPLAY-RESULT {{\"driver\":\"wal::replay_torn_enum\",\"cases\":{cases},\"distinct_nontrivial\":{nontrivial},\"samples\":[{}],\"failures\":[{}]}}",
+		samples.join(","),
+		failures.join(",")
+	);
+	assert!(failures.is_empty());
+}
